@@ -169,20 +169,15 @@ theorem tri_rejects_iff (low : ℝ) (high : Option ℝ) (rate : ℝ) :
       0 ≤ low ∧ low < high.getD (rate / 2) ∧ high.getD (rate / 2) ≤ rate / 2 + 1 := by
   cases high <;> simp [tri_ctor_rejects, Option.getD, and_assoc] <;> norm_num
 
-/-- `Fbank.__init__` accepts exactly `0 ≤ low` with `high` absent, `0`, or `low < high ≤ ⌊rate/2⌋`
-(`sampling_rate // 2`, not `rate/2 + 1`; the default is not compared with `low`). -/
+/-- `Fbank.__init__` fills the default `high = ⌊rate/2⌋` (`sampling_rate // 2`) first and then accepts
+exactly `0 ≤ low < high ≤ ⌊rate/2⌋` (so `high_hz = 0` and a `low_hz` at or above the default top are rejected). -/
 theorem fbank_rejects_iff (low : ℝ) (high : Option ℝ) (rate : ℝ) :
     fbank_ctor_rejects low high rate = false ↔
-      0 ≤ low ∧ ∀ h, high = some h → h ≠ 0 → low < h ∧ h ≤ (⌊rate / 2⌋ : ℝ) := by
-  cases high with
-  | none => simp [fbank_ctor_rejects]; norm_num
-  | some h =>
-    simp only [fbank_ctor_rejects, Bool.or_eq_false_iff, decide_eq_false_iff_not, not_lt,
-      Bool.and_eq_false_imp, Bool.or_eq_true, decide_eq_true_eq, not_le, floorI_real,
-      Option.some.injEq, forall_eq']
-    norm_num
+      0 ≤ low ∧ low < high.getD (⌊rate / 2⌋ : ℝ) ∧ high.getD (⌊rate / 2⌋ : ℝ) ≤ (⌊rate / 2⌋ : ℝ) := by
+  cases high <;> simp [fbank_ctor_rejects, Option.getD, and_assoc] <;> norm_num
 
-/-- `GaborFilterBank.__init__`: the same validation as `Fbank` -/
+/-- `GaborFilterBank.__init__` accepts exactly `0 ≤ low` with `high` absent, `0`, or `low < high ≤ ⌊rate/2⌋`
+(`sampling_rate // 2`, not `rate/2 + 1`; the default is not compared with `low`). -/
 theorem gabor_rejects_iff (low : ℝ) (high : Option ℝ) (rate : ℝ) :
     gabor_ctor_rejects low high rate = false ↔
       0 ≤ low ∧ ∀ h, high = some h → h ≠ 0 → low < h ∧ h ≤ (⌊rate / 2⌋ : ℝ) := by
@@ -194,7 +189,7 @@ theorem gabor_rejects_iff (low : ℝ) (high : Option ℝ) (rate : ℝ) :
       Option.some.injEq, forall_eq']
     norm_num
 
-/-- `ComplexGammatoneFilterBank.__init__`: the same validation as `Fbank` (plus `order ≥ 1`) -/
+/-- `ComplexGammatoneFilterBank.__init__`: the same validation as `GaborFilterBank` (plus `order ≥ 1`) -/
 theorem gammatone_rejects_iff (low : ℝ) (high : Option ℝ) (rate : ℝ) :
     gammatone_ctor_rejects low high rate = false ↔
       0 ≤ low ∧ ∀ h, high = some h → h ≠ 0 → low < h ∧ h ≤ (⌊rate / 2⌋ : ℝ) := by
@@ -236,7 +231,12 @@ theorem fbank_range_rejected (n : ℕ) (high : Option ℝ) (low rate : ℝ)
   have : fbank_ctor_rejects low high rate = true := by
     by_contra hc
     rw [Bool.not_eq_true] at hc
-    exact floor_style_rejected h ((fbank_rejects_iff low high rate).mp hc)
+    have acc := (fbank_rejects_iff low high rate).mp hc
+    have hf := floor_half_le rate
+    rcases h with h | ⟨x, rfl, hx, h | h⟩
+    · linarith [acc.1]
+    · simp only [Option.getD] at acc; linarith [acc.2.1]
+    · simp only [Option.getD] at acc; linarith [acc.2.2]
   simp [fbankVertices, this]
 
 /-- **range_rejected**, `GaborFilterBank` -/
@@ -272,7 +272,8 @@ example : tri_ctor_rejects (20:ℝ) (some 4000.5) 8000 = false ∧ fbank_ctor_re
   · rw [tri_rejects_iff]; simp only [Option.getD]; norm_num
   · by_contra hc
     rw [Bool.not_eq_true] at hc
-    have := ((fbank_rejects_iff 20 (some 4000.5) 8000).mp hc).2 4000.5 rfl (by norm_num)
+    have := ((fbank_rejects_iff 20 (some 4000.5) 8000).mp hc).2.2
+    simp only [Option.getD] at this
     norm_num at this
 
 /-! ## 4. layout of the constructed banks -/
@@ -370,6 +371,13 @@ theorem floor_high_eq (high : Option ℝ) (rate : ℝ) :
     norm_num
   · cases high <;> simp [gammatone_high, Option.getD]
     norm_num
+
+/-- an accepted `Fbank` range has `low < high` after the default (the guard now checks it) -/
+theorem fbank_accepted_lt {low rate : ℝ} {high : Option ℝ} (h : fbank_ctor_rejects low high rate = false) :
+    0 ≤ low ∧ low < fbank_high high rate := by
+  have acc := (fbank_rejects_iff low high rate).mp h
+  rw [(floor_high_eq high rate).1]
+  exact ⟨acc.1, acc.2.1⟩
 
 /-- an accepted triangular range with `low_hz` below the Nyquist frequency has `low < high` after the clamp -/
 theorem tri_accepted_lt {low rate : ℝ} {high : Option ℝ} (h : tri_ctor_rejects low high rate = false)
@@ -1247,8 +1255,8 @@ theorem loop_range (rate l r : ℝ) (W dft : ℕ) (hrate : 0 < rate) (hW : 0 < W
 structure PartsSpec (p : TriParts ℝ) (rate l r : ℝ) (W : ℕ) (half analytic : Bool) (g : ℝ → ℝ) : Prop where
   left : p.leftIdx = ⌈(W:ℝ) * l / rate⌉
   right : p.rightIdx = FloorCeil.truncI ((W:ℝ) * r / rate)
-  aL : p.assertLeft = decide (rate * ((p.leftIdx : ℝ) - 1) / W ≤ l)
-  aR : p.assertRight = decide (r ≤ rate * ((p.rightIdx : ℝ) + 1) / W)
+  aL : p.assertLeft = decide ((p.leftIdx : ℝ) - 1 ≤ (W:ℝ) * l / rate)
+  aR : p.assertRight = decide ((W:ℝ) * r / rate ≤ (p.rightIdx : ℝ) + 1)
   lo : p.lo = p.leftIdx
   hi : p.hi = min ((dftSize W half : ℕ) : ℤ) (p.rightIdx + 1)
   mirror : p.mirror = (!half && !analytic)
@@ -1283,16 +1291,13 @@ theorem bins_generic {p : TriParts ℝ} {rate l r : ℝ} {W : ℕ} {half analyti
   obtain ⟨hlo0, hhi, hb, hh, hiff⟩ := loop_range rate l r W (dftSize W half) hrate hW hl hlr hny hd
   -- the asserts
   have hA1 : p.assertLeft = true := by
-    rw [S.aL, decide_eq_true_eq, S.left, div_le_iff₀ hWr]
+    rw [S.aL, decide_eq_true_eq, S.left]
     have h1 := Int.ceil_lt_add_one ((W:ℝ) * l / rate)
-    have h2 : (⌈(W:ℝ) * l / rate⌉ : ℝ) - 1 < (W:ℝ) * l / rate := by linarith
-    rw [lt_div_iff₀ hrate] at h2
-    nlinarith
+    linarith
   have hA2 : p.assertRight = true := by
-    rw [S.aR, decide_eq_true_eq, hR, le_div_iff₀ hWr]
+    rw [S.aR, decide_eq_true_eq, hR]
     have h1 := Int.lt_floor_add_one ((W:ℝ) * r / rate)
-    rw [div_lt_iff₀ hrate] at h1
-    nlinarith
+    linarith
   have hlo : p.lo = ⌈(W:ℝ) * l / rate⌉ := by rw [S.lo, S.left]
   have hhi' : p.hi = min ((dftSize W half : ℕ) : ℤ) (⌊(W:ℝ) * r / rate⌋ + 1) := by rw [S.hi, hR]
   have hB : boundsOk p (dftSize W half) = true := by
@@ -1389,8 +1394,8 @@ theorem triParts_spec (rate l c r : ℝ) (W : ℕ) (half analytic : Bool) :
     PartsSpec (triParts rate l c r W half analytic) rate l r W half analytic (fun f => tri_val f l c r) where
   left := by simp [triParts, tri_left_idx]
   right := by simp [triParts, tri_right_idx]
-  aL := by simp only [triParts, tri_assert_left]; norm_num; rfl
-  aR := by simp only [triParts, tri_assert_right]; norm_num; rfl
+  aL := by simp only [triParts, tri_assert_left]; norm_num <;> rfl
+  aR := by simp only [triParts, tri_assert_right]; norm_num <;> rfl
   lo := by simp [triParts, tri_loop_lo]
   hi := by simp [triParts, tri_loop_hi]
   mirror := by simp [triParts, tri_mirror]
@@ -1405,8 +1410,8 @@ theorem fbankParts_spec (rate l c r : ℝ) (W : ℕ) (half analytic : Bool) :
       (fun f => Real.sqrt (fbank_val f l c r)) where
   left := by simp [fbankParts, fbank_left_idx]
   right := by simp [fbankParts, fbank_right_idx]
-  aL := by simp only [fbankParts, fbank_assert_left]; norm_num; rfl
-  aR := by simp only [fbankParts, fbank_assert_right]; norm_num; rfl
+  aL := by simp only [fbankParts, fbank_assert_left]; norm_num <;> rfl
+  aR := by simp only [fbankParts, fbank_assert_right]; norm_num <;> rfl
   lo := by simp [fbankParts, fbank_loop_lo]
   hi := by simp [fbankParts, fbank_loop_hi]
   mirror := by simp [fbankParts, fbank_mirror]
@@ -1583,10 +1588,21 @@ example : ∃ vs, triVertices (.mel : Scale ℝ) 5 none 20 8000 = .ok vs := by
 
 /-- the floor-style constructors accept (20, default) at 11025 Hz, where the default top is 5512 -/
 example : fbank_ctor_rejects (20:ℝ) none 11025 = false ∧ fbank_high none (11025:ℝ) = 5512 := by
-  refine ⟨by rw [fbank_rejects_iff]; simp, ?_⟩
-  rw [(floor_high_eq none 11025).1]; simp only [Option.getD]
-  have : ⌊(11025:ℝ) / 2⌋ = 5512 := by rw [Int.floor_eq_iff]; norm_num
-  rw [this]; norm_num
+  have hfl : ⌊(11025:ℝ) / 2⌋ = 5512 := by rw [Int.floor_eq_iff]; norm_num
+  refine ⟨?_, ?_⟩
+  · rw [fbank_rejects_iff]; simp only [Option.getD]; rw [hfl]; norm_num
+  · rw [(floor_high_eq none 11025).1]; simp only [Option.getD]; rw [hfl]; norm_num
+
+/-- since the repair of `Fbank`, `high_hz = 0` and a `low_hz` above the default top are rejected by `Fbank`
+(and still accepted by the Gabor / gammatone constructors) -/
+example : fbank_ctor_rejects (20:ℝ) (some 0) 8000 = true ∧ gabor_ctor_rejects (20:ℝ) (some 0) 8000 = false := by
+  constructor
+  · by_contra hc
+    rw [Bool.not_eq_true] at hc
+    have := ((fbank_rejects_iff 20 (some 0) 8000).mp hc).2.1
+    simp only [Option.getD] at this
+    norm_num at this
+  · rw [gabor_rejects_iff]; exact ⟨by norm_num, fun h hh hne => absurd (by simpa using hh.symm) hne⟩
 
 example : ∃ es, gaborEdges (.bark : Scale ℝ) 10 (some 3800) 50 8000 = .ok es := by
   have : gabor_ctor_rejects (50:ℝ) (some 3800) 8000 = false := by
